@@ -98,6 +98,7 @@ theorem ne_exit_afterStore (c : Cfg) : afterStore c ≠ .wStopping ∧ afterStor
 theorem ne_exit_cont (c : Cfg) (x : Option Item) (k : Pc) (h : ContOK c x k) : k ≠ .wStopping ∧ k ≠ .exited := by
   cases k <;> first
     | (simp; done)
+    | (exfalso; obtain ⟨_, n, hn⟩ := h; have := ne_exit_markChain c n; rw [← hn] at this; simp at this; done)
     | (obtain ⟨_, n, hn⟩ := h; rw [hn]; exact ne_exit_markChain c n)
 theorem ne_exit_onEmpty (ctx : PopCtx) : ctx.onEmpty ≠ .wStopping ∧ ctx.onEmpty ≠ .exited := by
   cases ctx <;> simp [PopCtx.onEmpty]
@@ -118,6 +119,21 @@ theorem noteMarker_some (fm : Option Nat) (p j0 : Nat) (h : noteMarker fm p = so
   cases fm <;> simp_all [noteMarker]
 theorem noteMarker_ne_none (fm : Option Nat) (p : Nat) : noteMarker fm p ≠ none := by
   cases fm <;> simp [noteMarker]
+
+@[simp, exec_proj] theorem onClaim_exitTicket_task (s : State) (t id : Nat) (ctx : PopCtx) :
+    (ctx.onClaim s t (.task id)).exitTicket = s.exitTicket := by cases ctx <;> rfl
+/-- the continuation of the last marker push joins the first worker, or returns when there is none -/
+theorem cont_join (c : Cfg) (x : Option Item) (k : Pc) (h : ContOK c x k) :
+    (∀ n, k = .sJoinW n → n = 0) ∧ (k = .sEnd → c.workers = []) := by
+  constructor
+  · intro n hk
+    subst hk
+    obtain ⟨_, m, hm⟩ := h
+    exact markChain_sJoinW c m n hm.symm
+  · intro hk
+    subst hk
+    obtain ⟨_, m, hm⟩ := h
+    exact markChain_sEnd c m hm.symm
 
 theorem mem_getElem? (l : List Nat) (u : Nat) (h : u ∈ l) : ∃ m, m < l.length ∧ l[m]? = some u := by
   obtain ⟨m, hm, he⟩ := List.mem_iff_getElem.mp h
